@@ -25,7 +25,8 @@ import os
 from harness.common.framework import Prop, VERIF
 from translate import t_c15
 
-ERRS = ('StopIteration', 'ValueError', 'TypeError', 'AssertionError', 'KeyError', 'RuntimeError')
+ERRS = ('StopIteration', 'ValueError', 'TypeError', 'AssertionError', 'KeyError', 'RuntimeError',
+        'ZeroDivisionError', 'IndexError')
 
 
 # ------------------------------------------------------------------------------------------
@@ -122,6 +123,23 @@ def make_update(world, spec):
   n = spec[1]
   if kind == 'last':
     return lambda pop, global_state, step: pop[-n:]
+  if kind == 'duel':           # NOT batch-equivalent: while too long, the two oldest fight, the fitter stays
+    def op(pop, global_state, step):   # (ties: the older one goes); one duel per call
+      pop = list(pop)
+      if len(pop) > n:
+        if fitness_of(pop[0]) > fitness_of(pop[1]):
+          del pop[1]
+        else:
+          del pop[0]
+      return pop
+    return op
+  if kind == 'step':           # NOT batch-equivalent: depends on the feedback step it is called with
+    def op(pop, global_state, step):
+      pop = list(pop)
+      if len(pop) > n:
+        del pop[step % len(pop)]
+      return pop
+    return op
   if kind == 'top':            # stable: the n fittest, ties broken by position
     def op(pop, global_state, step):
       order = sorted(range(len(pop)), key=lambda i: (-fitness_of(pop[i]), i))
@@ -155,14 +173,17 @@ def build(world, cfg):
   if k == 'real':
     from pyglove.ext import evolution
     name = cfg['name']
+    mut = evolution.mutators.Uniform(seed=cfg.get('seed'))
     if name == 'regularized_evolution':
-      return evolution.regularized_evolution(population_size=cfg['population_size'],
+      return evolution.regularized_evolution(mut, population_size=cfg['population_size'],
                                              tournament_size=cfg['tournament_size'], seed=cfg['seed'])
     if name == 'hill_climb':
-      return evolution.hill_climb(batch_size=cfg['batch_size'],
+      return evolution.hill_climb(mut, batch_size=cfg['batch_size'],
                                   init_population_size=cfg['init_population_size'], seed=cfg['seed'])
     if name == 'nsga2':
-      return evolution.nsga2(population_size=cfg['population_size'], seed=cfg['seed'])
+      return evolution.nsga2(mut, population_size=cfg['population_size'], seed=cfg['seed'])
+    if name == 'neat':
+      return evolution.neat(mut, population_size=cfg['population_size'], seed=cfg['seed'])
     if name == 'dedup':
       inner = build(world, cfg['inner'])
       return pg.geno.Deduping(inner, hash_fn=lambda dna: world.idx(dna),
@@ -211,7 +232,7 @@ def try_propose(world, algo):
     return algo.propose(), None
   except StopIteration:
     return None, 'StopIteration'
-  except (ValueError, TypeError, AssertionError, KeyError, RuntimeError) as e:
+  except (ValueError, TypeError, AssertionError, KeyError, RuntimeError, ZeroDivisionError, IndexError) as e:
     return None, type(e).__name__
 
 
@@ -241,7 +262,7 @@ def run_live(world, cfg, events):
           algo.feedback(dna, reward)
           hist[i][1] = reward
           log.append('f')
-        except (ValueError, TypeError, AssertionError, KeyError, RuntimeError) as ex:
+        except (ValueError, TypeError, AssertionError, KeyError, RuntimeError, ZeroDivisionError, IndexError) as ex:
           log.append(type(ex).__name__)
       else:
         log.append('skip')
@@ -285,7 +306,29 @@ def observe(world, cfg, algo):
   elif k in ('evo', 'real'):
     o['gen'] = algo.num_generations
     o['pop'] = [item_obs(world, d) for d in algo.population]
+    if k == 'real':
+      # what the operations keep next to the population (NSGA2: elites, cursor; NEAT: living species)
+      o['gstate'] = {str(key): canon_state(world, v) for key, v in algo.global_state.items()
+                     if key != 'num_generations'}
   return o
+
+
+def canon_state(world, v):
+  pg = world.pg
+  if isinstance(v, pg.DNA):
+    return ['dna', world.idx(v), jreward(v.metadata.get('reward'))]
+  if isinstance(v, (list, tuple)):
+    return [canon_state(world, x) for x in v]
+  if isinstance(v, dict):
+    return {str(k): canon_state(world, x) for k, x in v.items()}
+  if hasattr(v, 'representative') and hasattr(v, 'members'):      # neat.Species
+    return {'species': canon_state(world, v._representative),     # pylint: disable=protected-access
+            'members': canon_state(world, v.members)}
+  if isinstance(v, bool) or v is None or isinstance(v, (int, str)):
+    return v
+  if isinstance(v, float):
+    return jreward(v)
+  return '<%s>' % type(v).__name__
 
 
 def next_proposals(world, algo, m):
@@ -301,16 +344,40 @@ def next_proposals(world, algo, m):
   return out
 
 
-def recover_fresh(world, cfg, hist):
+def chunks_of(items, cuts):
+  """The history split at floor(len * c / 100) for the (ascending) percentages in cuts: the history
+  reaches the fresh instance in len(cuts)+1 consecutive recover() calls (some may be empty)."""
+  n = len(items)
+  out, start = [], 0
+  for c in list(cuts) + [100]:
+    end = max(start, n * c // 100)
+    out.append(items[start:end])
+    start = end
+  return out
+
+
+def feed_of(chunk, feed):
+  """`recover` takes an Iterable: a list, a one-shot iterator or a generator."""
+  if feed == 'iter':
+    return iter(chunk)
+  if feed == 'gen':
+    return (x for x in chunk)
+  if feed == 'tuple':
+    return tuple(chunk)
+  return chunk
+
+
+def recover_fresh(world, cfg, hist, feed='list', cuts=()):
   algo = setup(world, cfg)
   try:
-    algo.recover(persist(world, hist))
-  except (ValueError, TypeError, AssertionError, KeyError, RuntimeError) as e:
+    for chunk in chunks_of(persist(world, hist), cuts):
+      algo.recover(feed_of(chunk, feed))
+  except (ValueError, TypeError, AssertionError, KeyError, RuntimeError, ZeroDivisionError, IndexError) as e:
     return None, type(e).__name__
   return algo, None
 
 
-def crash_points(world, cfg, events, m):
+def crash_points(world, cfg, events, m, feed='list', cuts=()):
   """For every k: observe + next proposals of the live instance stopped after k events and of a fresh
   instance recovered from the persisted history."""
   out = []
@@ -321,7 +388,7 @@ def crash_points(world, cfg, events, m):
       log = lg
     import random
     g_live = random.getstate()      # the global PRNG is shared by all unseeded Random instances:
-    rec, err = recover_fresh(world, cfg, hist)     # (setup reseeds it: position 0 for the fresh instance)
+    rec, err = recover_fresh(world, cfg, hist, feed, cuts)   # (setup reseeds the global PRNG: position 0)
     ent = {'live': observe(world, cfg, live)}
     ent['rec'] = {'error': err} if err else observe(world, cfg, rec)
     ent['rec_next'] = [] if err else next_proposals(world, rec, m)
@@ -458,6 +525,11 @@ def diff_state(cfg, live, rec, path=''):
         yield ('%s:population-order' % name, 'population order live=%s recovered=%s' % (lp, rp))
       else:
         yield ('%s:population' % name, 'population live=%s recovered=%s' % (lp, rp))
+    lg, rg = live.get('gstate') or {}, rec.get('gstate') or {}
+    for key in sorted(set(lg) | set(rg)):
+      if lg.get(key) != rg.get(key):
+        yield ('%s:global-state:%s' % (name, key),
+               'global state %r live=%s recovered=%s' % (key, lg.get(key), rg.get(key)))
     if live['gen'] != rec['gen']:
       phase = 'init-phase' if live['gen'] == 0 else 'evolving'
       yield ('%s:num_generations:%s' % (name, phase),
@@ -495,7 +567,11 @@ class C15(Prop):
           'without initial size, Deduping over Evolution, and the real regularized_evolution / hill_climb / '
           'nsga2 (+ Deduping over them; oracle only)}; spaces of 3-24 points; runs of 0-40 (thorough: 60) events '
           'produced like a tuning backend with 1-5 parallel workers (feedback in proposal order or shuffled, '
-          'last proposals in flight); EVERY crash point k in 0..N is checked inside a case. Non-trivial: some '
+          'last proposals in flight); the persisted history is handed to recover() as a list / tuple / one-shot '
+          'iterator / generator, in 1-3 consecutive recover() calls (cut at random percentages); Evolution updates '
+          'also include two operations that are NOT equivalent to one batch application (duel, step); real '
+          'algorithms include NEAT, and their global state (elites, elite_cursor, living_species) is observed; '
+          'EVERY crash point k in 0..N is checked inside a case. Non-trivial: some '
           'crash point has a proposal in flight and some has a reward; distinct by (algo, space, events).')
   trusted_base = [
       'random.Random bit streams (the oracle stream fed to the model is recorded from the real PRNG)',
@@ -532,7 +608,8 @@ class C15(Prop):
       init_size = None                     # initial phase ends when the initialiser is exhausted
     else:
       init_size = rng.randint(1, 5)
-    upd = rng.weighted([(2, ['none']), (3, ['last', rng.randint(1, 4)]), (3, ['top', rng.randint(1, 4)])])
+    upd = rng.weighted([(2, ['none']), (3, ['last', rng.randint(1, 4)]), (3, ['top', rng.randint(1, 4)]),
+                        (3, ['duel', rng.randint(1, 4)]), (3, ['step', rng.randint(1, 4)])])
     repro = [rng.choice(['best_next', 'last_gen']), rng.weighted([(3, 1), (2, 2), (1, 3)])]
     return {'kind': 'evo', 'init': init, 'init_size': init_size, 'repro': repro, 'update': upd}
 
@@ -544,7 +621,7 @@ class C15(Prop):
             'max_att': rng.randint(1, 6), 'auto': rng.chance(0.35)}
 
   def gen_algo(self, rng, size):
-    k = rng.weighted([(2, 'base'), (5, 'dedup-base'), (1, 'dedup-dedup'), (6, 'evo'), (3, 'dedup-evo'), (3, 'real')])
+    k = rng.weighted([(2, 'base'), (5, 'dedup-base'), (1, 'dedup-dedup'), (6, 'evo'), (3, 'dedup-evo'), (5, 'real')])
     if k == 'base':
       return self.gen_base(rng)
     if k == 'dedup-base':
@@ -560,7 +637,7 @@ class C15(Prop):
       return self.gen_evo(rng, size)
     if k == 'dedup-evo':
       return self.gen_dedup(rng, self.gen_evo(rng, size), size)
-    name = rng.choice(['regularized_evolution', 'hill_climb', 'nsga2', 'dedup'])
+    name = rng.weighted([(2, 'regularized_evolution'), (2, 'hill_climb'), (3, 'nsga2'), (3, 'neat'), (2, 'dedup')])
     seed = rng.randint(0, 99)
     if name == 'regularized_evolution':
       ps = rng.randint(2, 5)
@@ -570,6 +647,8 @@ class C15(Prop):
               'init_population_size': rng.randint(1, 3), 'seed': seed}
     if name == 'nsga2':
       return {'kind': 'real', 'name': name, 'population_size': rng.randint(1, 3), 'seed': seed}
+    if name == 'neat':
+      return {'kind': 'real', 'name': name, 'population_size': rng.randint(2, 4), 'seed': seed}
     ps = rng.randint(2, 4)
     inner = rng.choice([
         {'kind': 'real', 'name': 'regularized_evolution', 'population_size': ps, 'tournament_size': 2, 'seed': seed},
@@ -612,7 +691,13 @@ class C15(Prop):
       else:
         n = rng.weighted([(1, rng.randint(0, 5)), (5, rng.randint(6, 16)), (3, rng.randint(17, 40)),
                           (1, rng.randint(41, 60))])
-      yield {'algo': algo, 'dims': dims, 'events': self.gen_events(rng, n), 'm': 3}
+      if algo['kind'] == 'real' and n < 12 and rng.chance(0.7):
+        n += 12          # NSGA2 / NEAT updates only bite after a few generations
+      # how the backend hands the history over: container kind, and in how many recover() calls
+      feed = rng.weighted([(3, 'list'), (2, 'iter'), (2, 'gen'), (1, 'tuple')])
+      cuts = rng.weighted([(4, []), (2, [rng.randint(50, 90)]), (2, [rng.randint(10, 50)]),
+                           (2, sorted([rng.randint(20, 60), rng.randint(50, 95)]))])
+      yield {'algo': algo, 'dims': dims, 'events': self.gen_events(rng, n), 'm': 3, 'feed': feed, 'cuts': cuts}
 
   def search_cases(self, rng, tier, broken):
     # every case already checks all its crash points: one more batch is a 40x bigger search
@@ -627,12 +712,13 @@ class C15(Prop):
     n = sum(1 for e in case['events'] if e[0] == 'p') + m
     n = min(4000, n * attempts_bound(cfg) + 4)
     return {'algo': cfg, 'space': list(range(len(world.dnas))), 'streams': streams(world, cfg, n),
-            'events': case['events'], 'm': m}
+            'events': case['events'], 'm': m, 'cuts': list(case.get('cuts', []))}
 
   def impl(self, case):
     world = world_of(case['dims'])
     cfg = case['algo']
-    ks, log = crash_points(world, cfg, case['events'], case.get('m', 3))
+    ks, log = crash_points(world, cfg, case['events'], case.get('m', 3), case.get('feed', 'list'),
+                           case.get('cuts', []))
     return {'model': {'ks': ks}, 'log': log, 'n': len(world.dnas)}
 
   def oracle(self, case, out):
@@ -644,8 +730,16 @@ class C15(Prop):
       live['hist_dnas'] = [h[0] for h in ent['hist']]
       failed_propose = any(isinstance(x, str) and x in ERRS for x in log[:k])
       suffix = ':after-failed-propose' if failed_propose else ''
+      straddle = feedback_straddles_chunks(case, log, k, len(ent['hist']))
       for sig, text in diff_state(cfg, live, rec):
-        fails.append({'signature': sig + suffix, 'what': 'crash point k=%d: %s' % (k, text), 'k': k})
+        if straddle and ('population' in sig or ':global-state:' in sig):
+          # feedbacks arrived in an order that crosses the boundaries of the recover() calls: one
+          # signature for every evolution-based algorithm and every part of its state
+          text = '%s: %s' % (sig, text)
+          sig = 'evolution:feedback-order-across-recover-calls'
+        elif suffix:
+          sig += suffix
+        fails.append({'signature': sig, 'what': 'crash point k=%d: %s' % (k, text), 'k': k})
       # Continuation: claimed for sweeping / seeded random / de-duplication over them, after a run of
       # proposals and feedbacks (a `propose` that raised is not a proposal: such prefixes are skipped).
       if 'error' not in rec and continuation_claimed(cfg) and not failed_propose:
@@ -678,6 +772,8 @@ class C15(Prop):
       return h + ['timeout']
     ev = case['events']
     h.append('events:%s' % ('0-5' if len(ev) <= 5 else '6-16' if len(ev) <= 16 else '17-40' if len(ev) <= 40 else '41+'))
+    h.append('feed:' + case.get('feed', 'list'))
+    h.append('recover-calls:%d' % (len(case.get('cuts', [])) + 1))
     fed = [e[1] for e in ev if e[0] == 'f']
     h.append('feedback:' + ('none' if not fed else 'in-order' if fed == sorted(fed) else 'out-of-order'))
     log = out['log']
@@ -716,6 +812,26 @@ class C15(Prop):
       c = dict(case)
       c['algo'] = cfg['inner']
       yield c
+
+
+def feedback_straddles_chunks(case, log, k, n_hist):
+  """Is some proposal of a later recover() call fed back before a proposal of an earlier call?"""
+  cuts = case.get('cuts') or []
+  if not cuts:
+    return False
+  bounds, start = [], 0
+  for c in list(cuts) + [100]:
+    start = max(start, n_hist * c // 100)
+    bounds.append(start)
+  chunk = lambda i: next(j for j, b in enumerate(bounds) if i < b)
+  order = [case['events'][j][1] for j in range(k) if log[j] == 'f']
+  hi = -1
+  for i in order:
+    c = chunk(i)
+    if c < hi:
+      return True
+    hi = max(hi, c)
+  return False
 
 
 def c15_auto(cfg):
